@@ -20,12 +20,19 @@ class Page(object):
         self.nofollow = False
         self.extra_head = ''
         self.base_href = None       # raw <base href> spelling; the links of the page are then spelled against base_url
+        self.set_cookie = None      # redirect pages: a cookie set with the redirect ('name=value')
+        self.needs_cookie = None    # (cookie 'name=value', URL to send a client without it back to): a cookie gate
+        self.straddle = 0           # k in 1..3: a 4-byte UTF-8 character lies across byte 131072 of the document, k bytes before it
         self.base_url = None
         self.junk = []              # raw hrefs that are not parseable URLs
 
     def body(self):
         if self.kind == 'html' or self.kind == 'leaf':
             parts = ['<!DOCTYPE html><html><head><meta charset="utf-8"><title>', self.url, '</title>']
+            if self.straddle:
+                # filler so that an emoji starts `straddle` bytes before offset 131072 (where encoding detectors cut their sample)
+                so_far = len(''.join(parts).encode('utf-8')) + len('<!-- ')
+                parts.append('<!-- ' + 'x' * (131072 - self.straddle - so_far) + '\U0001F600 -->')
             if self.base_href is not None:
                 parts.append('<base href="%s">' % self.base_href)
             parts.append(self.extra_head)
@@ -334,10 +341,18 @@ def make_handler(site, robots=None, hosts=None):
         if page is None:
             return {'status': 404, 'reason': 'Not Found', 'body': b'<html><body>404</body></html>',
                     'headers': [('Content-Type', 'text/html; charset=utf-8')]}
+        if page.needs_cookie:
+            cookie, back = page.needs_cookie
+            sent = '; '.join(v for n, v in req['headers'] if n == 'cookie')
+            if cookie not in [c.strip() for c in sent.split(';')]:
+                # no session yet: back to the page that hands one out
+                return {'status': 302, 'reason': 'Found', 'headers': [('Location', back), ('Content-Type', 'text/html; charset=utf-8')],
+                        'body': b'<html><body>session needed</body></html>'}
         if page.kind == 'redirect':
-            return {'status': page.status, 'reason': 'Redirect', 'headers': [('Location', page.location[0]),
-                                                                            ('Content-Type', 'text/html; charset=utf-8')],
-                    'body': b'<html><body>moved</body></html>'}
+            headers = [('Location', page.location[0]), ('Content-Type', 'text/html; charset=utf-8')]
+            if page.set_cookie:
+                headers.append(('Set-Cookie', page.set_cookie + '; Path=/'))
+            return {'status': page.status, 'reason': 'Redirect', 'headers': headers, 'body': b'<html><body>moved</body></html>'}
         return {'status': 200, 'headers': [('Content-Type', page.content_type())], 'body': page.body()}
     return handler
 
